@@ -357,11 +357,25 @@ def writeback_locality(ctx):
                 vv = strip_refs(val)
                 if isinstance(kk, LoopVar):
                     inner = [n for n in deep_walk(val) if isinstance(n, LoopVar)]
-                    ok_val = any(n.loop is kk.loop and n.path != kk.path for n in inner)
-                    vfact = 'value and key come from the same zip position'
+                    ok_val = any(n.loop is kk.loop and n.path != kk.path for n in inner) or \
+                        (not inner and any(isinstance(n, Param) and n.name != 'self' for n in deep_walk(val)))
+                    vfact = 'value and key come from the same zip position' if inner else 'the one value given, for every listed element'
                 else:
                     ok_val = any(isinstance(n, Param) and n.name != 'self' for n in deep_walk(val))
                     vfact = 'the values given'
+            if path_from_param(key) == ('self', ['slices']):
+                # the array can be indexed by the stored selection as a whole only when it is one (row, column) pair:
+                # a list of such pairs is not an index (IndexError) - every list selection must be handled entry by entry
+                def not_a_list(c):
+                    t = strip_refs(c.left)
+                    return c.op == 'falsy' and isinstance(t, ast.Call) and getattr(t.func, 'id', '') == 'isinstance' and \
+                        path_from_param(t.args[0]) == ('self', ['slices']) and \
+                        'list' in unparse(t.args[1].orig if hasattr(t.args[1], 'orig') else t.args[1])
+                g = gate_with(b, not_a_list) if b is not None else []
+                ctx.ob('C01.R3', fi, s.lineno, f"Slicer.{name}: the selection used as one index is not a list of selections",
+                       bool(g), fact=str(g[0]) if g else 'no `isinstance(self.slices, list)` test on this path',
+                       why='for a list selection numpy raises IndexError: the operation fails for list-addressed wells',
+                       key=f"list selection used as an index in {name}")
             ctx.ob('C01.R3', fi, s.lineno, f"Slicer.{name}: __setitem__({show(key, 30)}, ..)", ok_recv and ok_key and ok_val,
                    fact=f"key is {'the stored selection' if ok_key else show(key, 30)}; {vfact}",
                    why='a cell other than the one read / addressed is written', key=f"write-back key in {name}")
